@@ -149,6 +149,10 @@ def run(ctx):
         for bad in (["--threshold=abc"], ["--names=short"], ["--json", "--json-version=3"], ["--json-version=7"], ["--bogus-flag"],
                     ["--include=@undefined"], ["--include=/(/"], ["--verbose=perhaps"], ["--progress=zz"]):
             expect_fail("invalid option %s" % bad, args=bad)
+        for fmt in ([], ["--json"], ["-j", "--json-version=1"], ["--json", "--json-version=2"], ["--names=none"], ["--no-progress"]):
+            expect_fail("invalid sizer.threshold in gitconfig with %s" % fmt, config=[("sizer.threshold", "lots")], args=fmt)
+            expect_fail("invalid sizer.names in gitconfig with %s" % fmt, config=[("sizer.names", "shortest")], args=[a for a in fmt if not a.startswith("--names")])
+            expect_fail("invalid sizer.progress in gitconfig with %s" % fmt, config=[("sizer.progress", "perhaps")], args=[a for a in fmt if a != "--no-progress"])
         expect_fail("invalid sizer.threshold in gitconfig", config=[("sizer.threshold", "lots")], args=[])
         expect_fail("invalid sizer.jsonVersion in gitconfig", config=[("sizer.jsonVersion", "9")], args=["--json"])
         expect_fail("invalid regexp in refgroup", config=[("refgroup.x.includeregexp", "(")], args=[])
